@@ -27,7 +27,7 @@ def parse(line):
         if "=" in t:
             k, v = t.split("=", 1)
             d[k] = v
-        elif t in ("sat", "unsat"):
+        elif t in ("sat", "unsat", "sizeerr"):
             d["sat"] = t
     return d
 
@@ -43,6 +43,8 @@ def impl_verdict(d):
         return "sat" if d.get("verify") == "ok" else "proof-fails-verification:" + str(d.get("verify"))
     if p == "unsat":
         return "unsat"
+    if p == "sizeerr":
+        return "sizeerr"
     return "prove:" + str(p)
 
 
@@ -97,15 +99,16 @@ class ProgRunner:
                 want = "%x" % hash_list(c["rv"])
                 if di.get("rv") != want:
                     self.impl_fail.append((c, io, "returned witness values differ from the property's relation (want rv=%s)" % want))
-            if c.get("cmd", cmd) == "prog":
+            if c.get("cmd", cmd) in ("prog", "prog2"):
                 iv = impl_verdict(di)
                 self.tag("impl:" + iv.split(":")[0])
                 if iv.startswith("proof-fails-verification"):
                     self.impl_fail.append((c, io, "prover returned a proof that its own verifier rejects"))
                 mv = dm.get("sat")
-                if iv in ("sat", "unsat") and mv in ("sat", "unsat") and iv != mv:
+                V3 = ("sat", "unsat", "sizeerr")
+                if iv in V3 and mv in V3 and iv != mv:
                     self.model_mismatch.append((c, io, mo, "impl %s vs model %s" % (iv, mv)))
-                if iv not in ("sat", "unsat") and not iv.startswith("proof-fails"):
+                if iv not in V3 and not iv.startswith("proof-fails"):
                     self.model_mismatch.append((c, io, mo, "impl outcome %s has no model counterpart" % iv))
                 if c.get("expect") in ("sat", "unsat") and iv in ("sat", "unsat") and iv != c["expect"]:
                     self.impl_fail.append((c, io, "property says %s, implementation says %s" % (c["expect"], iv)))
